@@ -3,12 +3,17 @@ PROPERTY = 'C30'
 LEVEL = 'model_checking'
 CLAIM = ('draft')
 SW = ['default', 'cvc5int', 'z3', 'kissat']
+SAT = ['default', 'kissat', 'cadical']
 HARNESSES = [
-    H('mulfallback', 'feefrac.cpp', 'h_mulfallback', variants=[{'ORACLE': 1}, {'ORACLE': 2}, {'ORACLE': 1, 'CHECK_NATIVE': 1}, {'ORACLE': 2, 'CHECK_NATIVE': 1}], backends=SW, unwind=34, timeout=300),
+    H('mul_full', 'feefrac.cpp', 'h_mul', backends=SAT, unwind=1, timeout=300),
+    H('mul_list', 'feefrac.cpp', 'h_mul', variants=[{'BC': b} for b in (1000, -1000, 0x7fffffff)], backends=SW, unwind=1, timeout=300),
     H('pairorder', 'feefrac.cpp', 'h_pairorder', backends=['default', 'z3'], unwind=1, timeout=300),
-    H('divfallback', 'feefrac.cpp', 'h_div', defines={'WHICH': 0}, backends=SW, unwind=1, timeout=300),
-    H('div', 'feefrac.cpp', 'h_div', defines={'WHICH': 1}, backends=SW, unwind=1, timeout=300),
-    H('evalfee', 'feefrac.cpp', 'h_evalfee', variants=[{'FEE_CLASS': c} for c in (0, 1, 2)] + [{'FEE_CLASS': c, 'ROUND_UP': 1} for c in (0, 1, 2)], backends=SW, unwind=1, timeout=300),
-    H('compare', 'feefrac.cpp', 'h_compare', link=['policy/feerate.cpp'], backends=SW, unwind=1, timeout=300),
-    H('getfee', 'feefrac.cpp', 'h_getfee', link=['policy/feerate.cpp'], variants=[{}, {'PER_KVB': 1}], backends=SW, unwind=1, timeout=300),
+    H('div_list', 'feefrac.cpp', 'h_div', variants=[{'WHICH': w, 'DC': d} for w in (0, 1) for d in (1000, 0x7fffffff)], backends=SW, unwind=1, timeout=300),
+    H('div_round', 'feefrac.cpp', 'h_div_round', opt='-O2', backends=SAT, unwind=1, timeout=300),
+    H('evalfee_list', 'feefrac.cpp', 'h_evalfee', variants=[{'FEE_CLASS': 0, 'DC': 1000, 'FUSED_RANGE': 1}, {'FEE_CLASS': 0, 'ROUND_UP': 1, 'DC': 1000, 'FUSED_RANGE': 1}, {'FEE_CLASS': 1, 'DC': 1000}, {'FEE_CLASS': 2, 'DC': 1000}, {'FEE_CLASS': 1, 'ROUND_UP': 1, 'DC': 1000}, {'FEE_CLASS': 2, 'ROUND_UP': 1, 'DC': 1000}], backends=SW, witness_backends=['default'], unwind=1, timeout=300),
+    H('evalfee_slow', 'feefrac.cpp', 'h_evalfee_slow', variants=[{}, {'ROUND_UP': 1}], opt='-O2', backends=SAT, unwind=1, timeout=300),
+    H('evalfee_fast', 'feefrac.cpp', 'h_evalfee_fast', variants=[{}, {'ROUND_UP': 1}], backends=SAT, unwind=1, timeout=300),
+    H('compare', 'feerate.cpp', 'h_compare', link=['policy/feerate.cpp'], variants=[{}, {'SZ': 0}, {'SZ': 1}, {'SZ': 1000}, {'SZ': 0x7fffffff}], backends=SW, unwind=1, timeout=300),
+    H('compare_feerate', 'feerate.cpp', 'h_compare_feerate', link=['policy/feerate.cpp'], variants=[{'PER_KVB': 1}, {'SA': 250, 'SB': 1000}, {'SA': 1, 'SB': 0x7fffffff}, {'SA': 4000000, 'SB': 3}], backends=SW, unwind=1, timeout=300),
+    H('getfee', 'feerate.cpp', 'h_getfee', link=['policy/feerate.cpp'], variants=[{'SIZE': 1000, 'PER_KVB': 1, 'FEE_CLASS': 0, 'FUSED_RANGE': 1}] + [{'SIZE': 1000, 'PER_KVB': 1, 'FEE_CLASS': c} for c in (1, 2)], backends=SW, witness_backends=['default'], unwind=1, timeout=300),
 ]
